@@ -1,6 +1,7 @@
 import CkbVerif.Model.Molecule
 import CkbVerif.Gen.Schemas
 import CkbVerif.Gen.Codec
+import CkbVerif.Gen.RelayVerifiers
 /-!
 # Compact-block relay (C16 c) and the message gates of the sync / relay handlers
 
@@ -243,5 +244,96 @@ def reconstruct (h : Hashes) (cb : CB) (received : List Tx) (pool : Nat → Opti
       else if hd ≠ cb.header then .invalidHeader
       else .block { header := hd, uncles := uncles, txs := txs, proposals := cb.proposals, extension := cb.extension }
     | _, _ => .missing (noneIndexes slots 0) missingUncles
+
+/-! ## the BlockTransactions exchange (`block_transactions_verifier.rs`, `block_uncles_verifier.rs`,
+`BlockTransactionsProcess::execute`) — transactions are `Tx`, uncles are their header hashes -/
+
+/-- `CompactBlock::block_short_ids()`: one entry per body position, `none` at the prefilled
+positions, the short ids in order elsewhere (`short_ids().get(index)`: `none` past the list) -/
+def blockShortIdsGo (pre : List Nat) (sids : List Nat) : Nat → Nat → Nat → List (Option Nat)
+  | 0, _, _ => []
+  | n + 1, i, index =>
+    if pre.contains i then none :: blockShortIdsGo pre sids n (i + 1) index
+    else sids[index]? :: blockShortIdsGo pre sids n (i + 1) (index + 1)
+
+def blockShortIds (cb : CB) : List (Option Nat) :=
+  blockShortIdsGo (cb.prefilled.map (·.1)) cb.shortIds (txsLen cb) 0 0
+
+/-- `CompactBlock::short_id_indexes()` -/
+def shortIdIndexes (cb : CB) : List Nat :=
+  (List.range (txsLen cb)).filter (fun i => !(cb.prefilled.map (·.1)).contains i)
+
+inductive BtxVerdict
+  /-- `block_short_ids.get(index).expect("should never outbound")` -/
+  | panic
+  | lengthUnmatched
+  | shortIdsUnmatched
+  | ok
+deriving Repr, DecidableEq
+
+/-- the `filter_map` over the requested indexes: `none` = an index past `block_short_ids` (the
+`expect` panics), prefilled positions are dropped -/
+def missingShortIds (bsi : List (Option Nat)) : List Nat → Option (List Nat)
+  | [] => some []
+  | i :: rest =>
+    match bsi[i]? with
+    | none => none
+    | some none => missingShortIds bsi rest
+    | some (some sid) => (missingShortIds bsi rest).map (sid :: ·)
+
+/-- `BlockTransactionsVerifier::verify(block, indexes, transactions)`; `oobPanics`: an index past
+`block_short_ids` is unwrapped (`.expect("should never outbound")`, the code before /repo 804c7e9)
+or answered with the length-mismatch status (since) -/
+def btxVerifyWith (oobPanics : Bool) (cb : CB) (indexes : List Nat) (txs : List Tx) : BtxVerdict :=
+  match missingShortIds (blockShortIds cb) indexes with
+  | none => if oobPanics then .panic else .lengthUnmatched
+  | some expected =>
+    if expected.length ≠ txs.length then .lengthUnmatched
+    else if expected ≠ txs.map (·.sid) then .shortIdsUnmatched
+    else .ok
+
+/-- the verifier before /repo 804c7e9 -/
+def btxVerifyPreFix (cb : CB) (indexes : List Nat) (txs : List Tx) : BtxVerdict := btxVerifyWith true cb indexes txs
+
+/-- the verifier as the source reads at check time (translator `bin/gen.d/relay_verifiers.py`) -/
+def btxVerify (cb : CB) (indexes : List Nat) (txs : List Tx) : BtxVerdict :=
+  btxVerifyWith CkbVerif.Gen.RelayVerifiers.BTX_INDEX_OUT_OF_BOUNDS_PANICS cb indexes txs
+
+/-- `expected_ids`: `indexes.filter_map(|i| block.uncles().get(i))` -/
+def expectedUncles (uncles : List Nat) (indexes : List Nat) : List Nat :=
+  indexes.filterMap (fun i => uncles[i]?)
+
+/-- the `zip` loop: the first pair that differs -/
+def zipAllEq : List Nat → List Nat → Bool
+  | a :: as, b :: bs => a == b && zipAllEq as bs
+  | _, _ => true
+
+/-- `BlockUnclesVerifier::verify` before /repo c09cedb: the length-mismatch status is built and
+dropped (no `return`), only the pairwise comparison over the common prefix decides.
+`true` = `Status::ok()` -/
+def unclesVerifyPreFix (uncles : List Nat) (indexes : List Nat) (received : List Nat) : Bool :=
+  zipAllEq (expectedUncles uncles indexes) received
+
+/-- … with the `return` (since /repo c09cedb) -/
+def unclesVerifyFixed (uncles : List Nat) (indexes : List Nat) (received : List Nat) : Bool :=
+  (expectedUncles uncles indexes).length == received.length && zipAllEq (expectedUncles uncles indexes) received
+
+/-- `BlockUnclesVerifier::verify` as the source reads at check time (the translator
+`bin/gen.d/relay_verifiers.py` looks whether the length-mismatch status is returned) -/
+def unclesVerify (uncles : List Nat) (indexes : List Nat) (received : List Nat) : Bool :=
+  if CkbVerif.Gen.RelayVerifiers.UNCLES_LENGTH_MISMATCH_RETURNS then unclesVerifyFixed uncles indexes received
+  else unclesVerifyPreFix uncles indexes received
+
+/-- the uncles loop of `reconstruct_block` with `received_uncles.get(position).expect("have checked
+the indexes")` explicit: the uncles taken from the peer, position by position; `none` = the `expect`
+panics.  (Uncles not in `uncles_index` come from the chain or are reported missing: `unclesGo`.) -/
+def unclesTake (fromPeer : List Nat) (received : List Nat) : List Nat → Nat → Nat → Option (List (Nat × Nat))
+  | [], _, _ => some []
+  | _ :: rest, i, position =>
+    if fromPeer.contains i then
+      match received[position]? with
+      | none => none
+      | some r => (unclesTake fromPeer received rest (i + 1) (position + 1)).map ((i, r) :: ·)
+    else unclesTake fromPeer received rest (i + 1) position
 
 end CkbVerif.Compact
